@@ -1055,6 +1055,8 @@ class HistoryRun:
             return self.fail("empty-item-reads-absent", "*", stage, detail, i, step, source=src)
         if got == ABSENT:
             return self.fail("item-lost[%s]" % src, famname, stage, detail, i, step, source=src)
+        if got == LIST_NOT_ITEM and is_empty_canon(want):
+            return self.fail("empty-item-reads-as-list", "*", "save-export-get", detail, i, step, source=src)
         if src == "item-cache" and read == "get" and self.cache_survived_save.get(i):
             return self.fail("stale-item-cache", "*", "save-get-resave-get", detail, i, step, source=src)
         # exactly an older saved version of the same item?
@@ -1598,6 +1600,8 @@ def classify_plain(famname, want, got, stage, src=""):
         return "*", "empty-item-never-exported" if stage != "save-get" else "empty-item-reads-absent", detail
     if got == ABSENT:
         return famname, "item-lost", detail
+    if got == LIST_NOT_ITEM and is_empty_canon(want):
+        return "*", "empty-item-reads-as-list", detail
     if is_empty_canon(got) and not is_empty_canon(want):
         return famname, "item-emptied", detail
     leaves = sorted(leaf_diff(got, want))
